@@ -73,6 +73,14 @@ type COpts struct {
 	DataOff   bool // allow DataOffset > 24 on compressed sections
 	PlainNest bool // also nest volumes in uncompressed FV-image sections
 	Opaque    bool // sometimes clear the processing-required bit of a compressed section (opaque leaf)
+	// The following were added by the C06 coverage audit; all default to the old behaviour (no extra
+	// draws from the generator's stream when they are off).
+	Corrupt  bool // sometimes a compressed section whose payload does not decode (truncated stream): stays an opaque leaf
+	Siblings bool // two compressed sections in one file, a compressed section with no content, a nested volume inside two
+	// levels of compression, two files with nested volumes in one volume
+	LargeForm bool // sectioned files in the FFSv3 large form (32-byte header below 16 MiB) inside FFS3 volumes
+	HdrBytes  bool // volume headers with a non-zero 16-byte vector, a reserved byte, erased bytes before the
+	// extended header; file states other than 0xF8
 }
 
 // Target names a file inside a nested volume (for the edit oracle).
@@ -86,6 +94,7 @@ type cgen struct {
 	o       COpts
 	err     error
 	targets []Target
+	all     []Target // every file built from sections, level 0 included
 	nseq    uint32
 }
 
@@ -175,7 +184,23 @@ func (g *cgen) compressed(kids []*Sec) *Sec {
 		g.err = err
 		return &Sec{Type: 0x19}
 	}
+	if g.o.Corrupt && !hasVol(kids) && g.r.Chance(1, 10) {
+		// the end of the stream is missing: the decoder reports an error (after delivering part of the
+		// data), fiano logs it and keeps the section as an opaque leaf
+		if cut := g.r.Pick(1, 2, 5, 9); cut < len(s.Body) {
+			s.Body = s.Body[:len(s.Body)-cut]
+		}
+	}
 	return s
+}
+
+func hasVol(kids []*Sec) bool {
+	for _, k := range kids {
+		if k.Vol != nil {
+			return true
+		}
+	}
+	return false
 }
 
 // secs returns the section list of a file at nesting level `level`; when `nest` is set one of the
@@ -199,10 +224,26 @@ func (g *cgen) secs(level int, nest bool) []*Sec {
 			if r.Chance(1, 4) {
 				kids = append(kids, g.leaf())
 			}
+			if g.o.Siblings && r.Chance(1, 5) {
+				// the volume sits below two levels of compression
+				kids = append(g.leaves(0, 1), g.compressed(kids))
+			}
 			out = append(out, g.compressed(kids))
 		}
 	} else {
-		switch r.Intn(5) {
+		k := r.Intn(5)
+		if g.o.Siblings && r.Chance(1, 6) {
+			k = 5 + r.Intn(2)
+		}
+		switch k {
+		case 5: // two compressed sections side by side (both are re-encoded by one Assemble run)
+			out = append(out, g.compressed(g.leaves(1, 2)))
+			if r.Chance(1, 2) {
+				out = append(out, g.leaf())
+			}
+			out = append(out, g.compressed(g.leaves(1, 3)))
+		case 6: // a compressed section without content: decodes to nothing, stays a leaf
+			out = append(out, g.compressed(nil), g.leaf())
 		case 0: // compressed inside compressed
 			innerC := g.compressed(g.leaves(1, 2))
 			kids := append(g.leaves(0, 1), innerC)
@@ -239,9 +280,13 @@ func (g *cgen) file(level int, nest bool) *File {
 		f.Type = 0x0B
 	}
 	f.Secs = g.secs(level, nest)
+	if g.o.HdrBytes && r.Chance(1, 8) {
+		f.State = byte(r.Pick(0xF0, 0xF8))
+	}
 	if level > 0 {
 		g.targets = append(g.targets, Target{f.GUID, level})
 	}
+	g.all = append(g.all, Target{f.GUID, level})
 	return f
 }
 
@@ -268,13 +313,31 @@ func (g *cgen) vol(level int) *Vol {
 		copy(v.ExtName[:], r.Bytes(16))
 		v.ExtData = r.Bytes(r.Pick(0, 4, 12))
 	}
+	if g.o.HdrBytes {
+		if r.Chance(1, 3) {
+			copy(v.Zero[:], r.Bytes(16))
+		}
+		if r.Chance(1, 4) {
+			v.Reserved = byte(r.Intn(256))
+		}
+		if v.ExtHeader {
+			v.ExtPre = r.Pick(0, 0, 8, 24)
+		}
+	}
 	n := r.Pick(1, 2, 2, 3)
-	nestAt := -1
+	nestAt, nestAt2 := -1, -1
 	if level < g.o.Depth {
 		nestAt = r.Intn(n)
+		if g.o.Siblings && level < 2 && n > 1 && r.Chance(1, 4) {
+			nestAt2 = (nestAt + 1 + r.Intn(n-1)) % n // a second file with a nested volume
+		}
 	}
 	for i := 0; i < n; i++ {
-		v.Files = append(v.Files, g.file(level, i == nestAt))
+		f := g.file(level, i == nestAt || i == nestAt2)
+		if g.o.LargeForm && v.FSGUID == FFS3 && f.Secs != nil && r.Chance(1, 4) {
+			f.LargeForm = true
+		}
+		v.Files = append(v.Files, f)
 	}
 	return v
 }
@@ -282,6 +345,13 @@ func (g *cgen) vol(level int) *Vol {
 // GenCompRegion generates a BIOS region whose first volume nests o.Depth further volumes inside
 // compressed sections. It returns the files that live in nested volumes.
 func GenCompRegion(r *Rng, o COpts) (*Region, []Target, error) {
+	reg, targets, _, err := GenCompRegionAll(r, o)
+	return reg, targets, err
+}
+
+// GenCompRegionAll is GenCompRegion that also returns every file built from sections (level 0 = the
+// top-level volume), for oracles that pick a file anywhere in the image.
+func GenCompRegionAll(r *Rng, o COpts) (*Region, []Target, []Target, error) {
 	g := &cgen{r: r, o: o}
 	reg := &Region{}
 	if r.Chance(1, 3) {
@@ -291,7 +361,7 @@ func GenCompRegion(r *Rng, o COpts) (*Region, []Target, error) {
 	if r.Chance(1, 4) {
 		reg.Elems = append(reg.Elems, Elem{Pad: genPad(r, 8*r.Range(1, 6))})
 	}
-	return reg, g.targets, g.err
+	return reg, g.targets, g.all, g.err
 }
 
 // NewFileBytes serialises a small free-standing file (for insertion edits).
